@@ -11,6 +11,7 @@
 -/
 import OnsagerModel.C09
 import OnsagerProofs.C03
+import OnsagerProofs.Lemmas.Cover
 
 namespace Onsager.C09
 open Onsager.C02 Onsager.Var
@@ -41,5 +42,43 @@ theorem equiv_form_eq (inp d : Input) (u u' : List ℚ) (perm : List Nat) (D D' 
       rw [hl'] at hl0'; cases hl0'
       rw [hD, hD']
       exact Qmin_relabel (Equiv.ofBijective _ hbij) l l' hπ hp hr hp' hr' ξ ξ' hst hst'
+
+/-- Fibre sizes: the list count used by the model is the cardinality used by the covering lemma. -/
+theorem card_fibre {n' n : Nat} (π : Fin n' → Fin n) (k : Fin n) :
+    (Finset.univ.filter (fun i => π i = k)).card = (List.finRange n').countP (fun i => π i = k) := by
+  rw [List.countP_eq_length_filter]
+  rfl
+
+/-- **Supercell / conventional-cell descriptions.** Whenever the decidable `covercheck` accepts — description 2 has
+    m sites over every site of description 1 and its jumps are locally the jumps of description 1 with the
+    per-cell probability divided by m — the exact transport forms of the two descriptions are equal. -/
+theorem cover_form_eq (inp d : Input) (u u' : List ℚ) (proj : List Nat) (m : Nat) (D D' : ℚ)
+    (hc : covercheck inp d u u' proj m = true)
+    (h : form inp u u = some D) (h' : form d u' u' = some D') : D = D' := by
+  unfold covercheck at hc
+  split at hc
+  case isFalse => exact absurd hc (by simp)
+  case isTrue hn =>
+  simp only [Bool.and_eq_true, decide_eq_true_eq, List.all_eq_true, beq_iff_eq] at hc
+  obtain ⟨⟨hm, hfib⟩, hc⟩ := hc
+  cases hl : network inp u u with
+  | none => simp [hl] at hc
+  | some l =>
+    cases hl' : network d u' u' with
+    | none => simp [hl, hl'] at hc
+    | some l' =>
+      simp only [hl, hl', List.all_eq_true] at hc
+      obtain ⟨l0, ξ, hl0, hst, hp, hr, hD, _⟩ := form_eq_Qmin inp u D h
+      obtain ⟨l0', ξ', hl0', hst', hp', hr', hD', _⟩ := form_eq_Qmin d u' D' h'
+      rw [hl] at hl0; cases hl0
+      rw [hl'] at hl0'; cases hl0'
+      rw [hD, hD']
+      have hm' : ((m : ℕ) : ℚ) ≠ 0 := by exact_mod_cast (Nat.pos_iff_ne_zero.1 hm)
+      refine Qmin_cover (projFun d.n inp.n hn proj) m hm' ?_ l l' ?_ hp' hr' ξ ξ' hst hst'
+      · intro k
+        rw [card_fibre]
+        exact hfib k (List.mem_finRange k)
+      · intro i
+        exact List.isPerm_iff.1 (hc i (List.mem_finRange i))
 
 end Onsager.C09
